@@ -1243,7 +1243,7 @@ func (f *fragment) minRow(filter *Row) (uint64, uint64) {
 		}
 		// The highest row is read from storage; f.maxRowID is only a
 		// high-water mark for stats and is not maintained by every write path.
-		maxRowID := f.storage.Max() / ShardWidth
+		maxRowID := f.maxRowIDFromStorage()
 		// iterate from min row ID and return the first that intersects with filter.
 		for i := minRowID; i <= maxRowID; i++ {
 			row := f.row(i).Intersect(filter)
@@ -1265,7 +1265,7 @@ func (f *fragment) maxRow(filter *Row) (uint64, uint64) {
 		// The highest row is read from storage; f.maxRowID is only a
 		// high-water mark for stats: imports do not raise it and clears
 		// never lower it.
-		maxRowID := f.storage.Max() / ShardWidth
+		maxRowID := f.maxRowIDFromStorage()
 		if filter == nil {
 			return maxRowID, 1
 		}
@@ -1722,6 +1722,8 @@ func (f *fragment) top(opt topOptions) ([]Pair, error) {
 func (f *fragment) topBitmapPairs(rowIDs []uint64) []bitmapPair {
 	// Don't retrieve from storage if CacheTypeNone.
 	if f.CacheType == CacheTypeNone {
+		f.mu.Lock()
+		defer f.mu.Unlock()
 		return f.cache.Top()
 	}
 	// If no specific rows are requested, retrieve top rows.
@@ -1735,8 +1737,12 @@ func (f *fragment) topBitmapPairs(rowIDs []uint64) []bitmapPair {
 	// Otherwise retrieve specific rows.
 	pairs := make([]bitmapPair, 0, len(rowIDs))
 	for _, rowID := range rowIDs {
-		// Look up cache first, if available.
-		if n := f.cache.Get(rowID); n > 0 {
+		// Look up cache first, if available. The cache is guarded by the
+		// fragment lock (the LRU cache has no lock of its own).
+		f.mu.Lock()
+		n := f.cache.Get(rowID)
+		f.mu.Unlock()
+		if n > 0 {
 			pairs = append(pairs, bitmapPair{
 				ID:    rowID,
 				Count: n,
@@ -2631,8 +2637,17 @@ func (f *fragment) readCacheFromArchive(r io.Reader) error {
 }
 
 func (f *fragment) minRowID() (uint64, bool) {
+	f.mu.RLock()
+	defer f.mu.RUnlock()
 	min, ok := f.storage.Min()
 	return min / ShardWidth, ok
+}
+
+// maxRowIDFromStorage returns the highest row with a bit in storage.
+func (f *fragment) maxRowIDFromStorage() uint64 {
+	f.mu.RLock()
+	defer f.mu.RUnlock()
+	return f.storage.Max() / ShardWidth
 }
 
 // rowFilter is a function signature for controlling iteration over containers
